@@ -626,3 +626,40 @@ def type_of_value(v):
     if hasattr(v, "type_desc"):
         return v.type_desc()
     raise Unsupported(f"no type descriptor for {v!r}")
+
+
+def dict_items_filter(interp, cx, fr, e):
+    """Schema for `{k: v for k, v in [sorted](MAP.items()[, key=...]) if P(k, v)}` over a symbolic dict:
+    the result maps exactly the keys of MAP satisfying P to their values (iteration order is not modelled)."""
+    from .containers import MapItems, SMap
+
+    if not isinstance(e, ast.DictComp) or len(e.generators) != 1:
+        return NotImplemented
+    g = e.generators[0]
+    it = g.iter
+    if isinstance(it, ast.Call) and isinstance(it.func, ast.Name) and it.func.id == "sorted":
+        it = it.args[0]
+    src = interp.eval(cx, fr, it)
+    if not isinstance(src, MapItems):
+        return NotImplemented
+    if not (isinstance(g.target, ast.Tuple) and len(g.target.elts) == 2 and all(isinstance(x, ast.Name) for x in g.target.elts)):
+        raise ContractStale("dict filter schema: target shape")
+    kn, vn = g.target.elts[0].id, g.target.elts[1].id
+    if not (isinstance(e.key, ast.Name) and e.key.id == kn and isinstance(e.value, ast.Name) and e.value.id == vn):
+        raise ContractStale("dict filter schema: key/value expressions are not the loop variables")
+    m = src.m
+    snap = m.snapshot()
+    kk = z3.Const(fresh_name("dk"), m.kt.sort())
+    sub_fr = Frame(fr.modinfo, fr.qual, Env(fr.env), spec=fr.spec, cls=fr.cls)
+    sub_fr.env.set(kn, m.kt.wrap(kk))
+    sub_fr.env.set(vn, m.vt.wrap(snap.get_term(kk)))
+    conds_nodes = g.ifs
+    vals, fails, axioms = interp.eval_exprs_on_element(cx, sub_fr, None, None, conds_nodes, kk)
+    P = z3.And(*[as_bool(cx, V.truth(cx, v)) for v in vals]) if vals else z3.BoolVal(True)
+    for exc, fc in fails:
+        cx.oblige(f"comprehension-element-total:{exc}", "no-exception", z3.ForAll([kk], z3.Implies(snap.has(kk), z3.Not(fc))), clause="the filter condition is defined for every entry")
+    for ax in axioms:
+        cx.assume(z3.ForAll([kk], z3.Implies(snap.has(kk), ax)))
+    res = SMap.fresh(m.kt, m.vt, "filtered_map")
+    cx.assume(z3.ForAll([kk], z3.And(res.has(kk) == z3.And(snap.has(kk), P), z3.Implies(res.has(kk), res.get_term(kk) == snap.get_term(kk)))))
+    return res
